@@ -1147,6 +1147,10 @@ func (eh *ExceptionHandler) ExceptionState(e *Event) {
 	err := args.Err
 	trace := args.ErrTrace
 	mach := e.Machine()
+	// an event without a machine: nowhere to log to
+	if mach == nil {
+		return
+	}
 
 	// err
 	if err == nil {
